@@ -16,6 +16,7 @@ import (
 	"sync"
 	"sync/atomic"
 	"testing"
+	"time"
 
 	"github.com/SAP/go-dblib/namepool"
 	"pgregory.net/rapid"
@@ -24,7 +25,7 @@ import (
 
 func TestMain(m *testing.M) {
 	vh.Rule("formats: literal prefix + one base-10 verb (%d, %3d, %05d, %-4d, %+d) + literal suffix, literals from a token list incl. '%' (escaped), digits, blanks, non-ASCII. " +
-		"TestSequentialModel: rapid histories of 1..80 ops {acquire, release slot i via pool.Release or Name.Release, immediate double release of slot i (both ways), late re-release of an already released *Name, Release(nil), runtime.GC (<=3 per case)} against the model 'set of live ids'. " +
+		"TestSequentialModel: rapid histories of 1..80 ops {acquire, release slot i via pool.Release or Name.Release, immediate double release of slot i (both ways), late re-release of an already released *Name, Release(nil), runtime.GC (<=3 per case), forgetting all released names followed by two collections with pauses (finalizers get to run)}; formats incl. long ones (prefix 120..1000 bytes) against the model 'set of live ids'. " +
 		"TestConcurrentHolders: goroutines 1..64 (buckets 1-2/3-8/9-32/33-64), GOMAXPROCS in {1,4,16}, 1..8 program templates over the op letters a(cquire) r/R(elease newest/oldest via pool) m (Name.Release) d/e (double release pool/method) x/y (late re-release of an old pointer) n (Release(nil)) g (Gosched) s/S (spin) G (runtime.GC, budget 0..3 per execution), every goroutine is assigned one template, all start together on a fresh pool; every case is executed Reps (3..6) times because the schedule is not part of the case. Runs of consecutive acquires (releases) are performed back to back with one monitor update after (before) them, so that library calls of different goroutines overlap without harness synchronisation in between. " +
 		"Non-trivial: during an execution an id was handed to a different goroutine (sequential part: a different slot) after a release while other names were live; distinct by the whole case")
 	vh.Assume("the monitor is sound, not complete: a holder registers its id/text after Acquire returns and deregisters before calling Release, so two registered holders of one id/text were really simultaneous holders; collisions whose overlap is shorter than the registration gap are only seen by repeated executions. " +
@@ -92,7 +93,12 @@ func genFmt(rt *rapid.T) fmtSpec {
 	lit := func(label string) string {
 		return strings.Join(rapid.SliceOfN(rapid.SampledFrom(literalTokens), 0, 3).Draw(rt, label), "")
 	}
-	return fmtSpec{Prefix: lit("prefix"), Verb: rapid.SampledFrom(verbs).Draw(rt, "verb"), Suffix: lit("suffix")}
+	f := fmtSpec{Prefix: lit("prefix"), Verb: rapid.SampledFrom(verbs).Draw(rt, "verb"), Suffix: lit("suffix")}
+	if rapid.IntRange(0, 7).Draw(rt, "long") == 0 {
+		// "all formats": long ones too (identifiers near and beyond 255 bytes)
+		f.Prefix += strings.Repeat("p", rapid.SampledFrom([]int{120, 250, 251, 252, 253, 254, 255, 256, 300, 1000}).Draw(rt, "longprefix"))
+	}
+	return f
 }
 
 func isZero(n *namepool.Name) bool {
@@ -175,7 +181,7 @@ func runSeq(c seqCase) (fail *vh.Failure) {
 	everReleased := map[uint64]bool{}
 	doubled := map[uint64]bool{}
 	reuse, reuseWhileLive := 0, 0
-	hasDouble, hasGC, hasNil := false, false, false
+	hasDouble, hasGC, hasNil, hasForget := false, false, false, false
 
 	release := func(h heldName, method bool) *vh.Failure {
 		// the name must still be what was acquired
@@ -281,6 +287,17 @@ func runSeq(c seqCase) (fail *vh.Failure) {
 			stage = "gc"
 			hasGC = true
 			runtime.GC()
+		case "F":
+			// the holders forget the names they have released (nothing refers to those Name
+			// structs any more), collections run and whatever the runtime does with
+			// unreachable objects (finalizers, cleanups) gets time to happen
+			stage = "gc"
+			hasGC, hasForget = true, true
+			released = nil
+			for k := 0; k < 2; k++ {
+				runtime.GC()
+				time.Sleep(300 * time.Microsecond)
+			}
 		}
 	}
 	stage = "final"
@@ -298,6 +315,12 @@ func runSeq(c seqCase) (fail *vh.Failure) {
 	}
 	if hasGC {
 		vh.Label("seq:gc")
+	}
+	if hasForget {
+		vh.Label("seq:released-names-forgotten-and-collected")
+	}
+	if len(c.Fmt.Prefix) > 200 {
+		vh.Label("seq:long-format")
 	}
 	if reuse > 0 {
 		vh.Label("seq:id-reused")
@@ -328,6 +351,8 @@ func TestSequentialModel(t *testing.T) {
 			if k == "G" {
 				if gcs++; gcs > 3 {
 					k = "a"
+				} else if rapid.Bool().Draw(rt, "forget") {
+					k = "F"
 				}
 			}
 			op := seqOp{K: k}
